@@ -1,0 +1,391 @@
+//go:build verif
+
+// Contracts for the contract-based deductive verification in /verif (govc).
+// Comment-only: nothing in this file is compiled into the package.
+// Syntax: see /verif/DESIGN.md section 2. Parameters are bound by position.
+package pokerface
+
+// ---------------------------------------------------------------------------
+// predicates
+// ---------------------------------------------------------------------------
+
+// heap regions owned by the pot package (opaque to the engine-level contracts)
+//@ modset SETTLE = settlement.Result, settlement.PlayerResult, settlement.PotResult, settlement.PotLevel, settlement.LevelInfo, settlement.RankGroup, settlement.Winner, elems(*settlement.PlayerResult), elems(*settlement.PotResult), elems(*settlement.LevelInfo), elems(*settlement.RankGroup), elems(*settlement.Winner)
+//@ modset POTS = pot.LevelList, pot.Level, pot.Pot, map(map[int]int64), map(map[int]bool), elems(*pot.Level), elems(*pot.Pot), elems(int)
+
+//@ pred hasStr(s, x) = exists k :: 0 <= k && k < len(s) && s[k] == x
+
+//@ pred WFG(g) = g != nil && g.gs != nil && g.players != nil
+//@    && (forall i :: 0 <= i && i < len(g.gs.Players) ==>
+//@          g.gs.Players[i] != nil && g.gs.Players[i].Idx == i && in(i, g.players) && g.players[i] != nil
+//@          && g.players[i].idx == i && g.players[i].game == g && g.players[i].state == g.gs.Players[i])
+//@    && (forall i, j :: 0 <= i && i < j && j < len(g.gs.Players) ==> g.gs.Players[i] != g.gs.Players[j])
+//@    && g.dealer != nil && g.dealer.game == g && 0 <= g.dealer.idx && g.dealer.idx < len(g.gs.Players)
+//@    && g.players[g.dealer.idx] == g.dealer
+
+// clockwise distance from seat d to seat j at a table of n seats
+//@ pred DIST(d, j, n) = ite(j >= d, j - d, j + n - d)
+// the seat k steps clockwise from seat d
+//@ pred ROT(d, k, n) = ite(d + k < n, d + k, d + k - n)
+
+//@ pred WFP(p) = p != nil && p.game != nil && WFG(p.game) && 0 <= p.idx && p.idx < len(p.game.gs.Players)
+//@    && p.game.players[p.idx] == p
+
+//@ pred CHIP(ps) = ps.StackSize >= 0 && ps.Wager >= 0 && ps.Pot >= 0
+//@    && ps.InitialStackSize == ps.StackSize + ps.Wager && ps.Bankroll == ps.InitialStackSize + ps.Pot && ps.Bankroll > 0
+
+// ---------------------------------------------------------------------------
+// player.go
+// ---------------------------------------------------------------------------
+
+//@ func (*player).CheckAction(p, action) (res)
+//@   props C04 C11 C12
+//@   requires p != nil && p.state != nil
+//@   modifies nothing
+//@   ensures res <==> hasStr(p.state.AllowedActions, action)
+//@   loop 1 invariant forall k :: 0 <= k && k <= rangeindex ==> p.state.AllowedActions[k] != action
+
+//@ func (*player).CheckPosition(p, pos) (res)
+//@   props C13
+//@   requires p != nil && p.state != nil
+//@   modifies nothing
+//@   ensures res <==> hasStr(p.state.Positions, pos)
+//@   loop 1 invariant forall k :: 0 <= k && k <= rangeindex ==> p.state.Positions[k] != pos
+
+//@ func (*game).ResetActedPlayers(g) (err)
+//@   props C05 C12
+//@   requires WFG(g)
+//@   modifies PlayerState.Acted
+//@   ensures err == nil
+//@   ensures forall i :: 0 <= i && i < len(g.gs.Players) ==> !g.gs.Players[i].Acted
+//@   loop 1 invariant forall k :: 0 <= k && k <= rangeindex ==> !g.gs.Players[k].Acted
+
+//@ func (*game).BecomeRaiser(g, p) (err)
+//@   props C05 C12
+//@   requires WFG(g) && WFP(p) && p.game == g
+//@   modifies PlayerState.Acted, p.state.VPIP, g.gs.Status.CurrentRaiser
+//@   ensures err == nil
+//@   ensures forall i :: 0 <= i && i < len(g.gs.Players) ==> (g.gs.Players[i].Acted <==> i == p.idx)
+//@   ensures g.gs.Status.CurrentRaiser == p.idx
+//@   ensures p.state.VPIP <==> (old(p.state.VPIP) || p.state.Wager > 0)
+
+//@ pred STATUSOK(g) = g.gs.Status.CurrentWager >= 0 && g.gs.Status.PreviousRaiseSize >= 0
+
+// pay: the single place where chips move from a stack to the table.
+//@ func (*player).pay(p, chips, isWager) (err)
+//@   props C01 C11 C12 C13
+//@   requires WFP(p) && CHIP(p.state) && STATUSOK(p.game)
+//@   requires chips >= 0
+//@   modifies p.state.Wager, p.state.StackSize, p.state.DidAction, p.state.VPIP, PlayerState.Acted,
+//@            p.game.gs.Status.CurrentRoundPot, p.game.gs.Status.MaxWager, p.game.gs.Status.CurrentWager,
+//@            p.game.gs.Status.CurrentRaiser
+//@   ensures err == nil
+//@   ensures CHIP(p.state) && STATUSOK(p.game)
+//@   ensures p.state.Wager == old(p.state.Wager) + min(chips, old(p.state.StackSize))
+//@   ensures p.game.gs.Status.CurrentRoundPot - old(p.game.gs.Status.CurrentRoundPot) == p.state.Wager - old(p.state.Wager)
+//@   ensures old(p.state.StackSize) <= chips ==> p.state.StackSize == 0 && p.state.DidAction == "allin"
+//@   ensures old(p.state.StackSize) > chips ==> p.state.DidAction == old(p.state.DidAction)
+//@   ensures isWager ==> p.game.gs.Status.CurrentWager == max(old(p.game.gs.Status.CurrentWager), p.state.Wager)
+//@   ensures !isWager ==> p.game.gs.Status.CurrentWager == old(p.game.gs.Status.CurrentWager)
+//@   ensures !isWager ==> unchanged(PlayerState.Acted) && p.game.gs.Status.CurrentRaiser == old(p.game.gs.Status.CurrentRaiser)
+//@                        && p.state.VPIP == old(p.state.VPIP)
+//@   ensures p.game.gs.Meta.Limit != "pot" ==> p.game.gs.Status.MaxWager == old(p.game.gs.Status.MaxWager)
+//@   -- who becomes the raiser / whose "acted" marks are cleared
+//@   ensures isWager && old(p.state.StackSize) > chips && p.state.Wager > old(p.game.gs.Status.CurrentWager)
+//@             ==> p.game.gs.Status.CurrentRaiser == p.idx
+//@                 && (forall i :: 0 <= i && i < len(p.game.gs.Players) ==> (p.game.gs.Players[i].Acted <==> i == p.idx))
+//@   ensures isWager && old(p.state.StackSize) > chips && p.state.Wager <= old(p.game.gs.Status.CurrentWager)
+//@             ==> unchanged(PlayerState.Acted) && p.game.gs.Status.CurrentRaiser == old(p.game.gs.Status.CurrentRaiser)
+//@   ensures isWager && old(p.state.StackSize) <= chips
+//@             ==> (forall i :: 0 <= i && i < len(p.game.gs.Players) && i != p.idx ==> !p.game.gs.Players[i].Acted)
+
+// OFFER: the offered-action table of property C11, read off the property statement
+// (implications only: an engine that offers more precise sets still satisfies it).
+//@ pred OFFER(g, ps, s) =
+//@      ((ps.Fold || ps.StackSize == 0) ==> len(s) == 1 && s[0] == "pass")
+//@   && (!(ps.Fold || ps.StackSize == 0) ==>
+//@          !hasStr(s, "pass") && hasStr(s, "allin")
+//@       && (hasStr(s, "fold") <==> ps.Wager < g.gs.Status.CurrentWager)
+//@       && (hasStr(s, "check") <==> !(ps.Wager < g.gs.Status.CurrentWager))
+//@       && (ps.Wager < g.gs.Status.CurrentWager && ps.InitialStackSize > g.gs.Status.CurrentWager ==> hasStr(s, "call"))
+//@       && (g.gs.Status.CurrentWager == 0 && ps.Wager >= g.gs.Status.CurrentWager && ps.InitialStackSize >= g.gs.Status.MiniBet ==> hasStr(s, "bet"))
+//@       && (g.gs.Status.CurrentWager > 0 && ps.InitialStackSize > g.gs.Status.CurrentWager + g.gs.Status.PreviousRaiseSize
+//@             && ps.InitialStackSize >= g.gs.Status.MiniBet ==> hasStr(s, "raise"))
+//@       && (hasStr(s, "call") ==> ps.Wager < g.gs.Status.CurrentWager && ps.InitialStackSize > g.gs.Status.CurrentWager)
+//@       && (hasStr(s, "bet") ==> g.gs.Status.CurrentWager == 0)
+//@       && (hasStr(s, "raise") ==> g.gs.Status.CurrentWager > 0))
+//@   && (forall k :: 0 <= k && k < len(s) ==> s[k] == "pass" || s[k] == "allin" || s[k] == "fold" || s[k] == "check"
+//@          || s[k] == "call" || s[k] == "bet" || s[k] == "raise")
+
+//@ func (*game).GetAvailableActions(g, p) (res)
+//@   props C11 C04
+//@   requires WFG(g) && STATUSOK(g)
+//@   requires p != nil ==> WFP(p) && p.game == g && CHIP(p.state)
+//@   modifies nothing
+//@   allocs elems(string)
+//@   ensures p == nil ==> len(res) == 0
+//@   ensures [C11] p != nil ==> OFFER(g, p.state, res)
+
+// ---------------------------------------------------------------------------
+// game.go: player list helpers
+// ---------------------------------------------------------------------------
+
+//@ func (*game).GetPlayers(g) (res)
+//@   props C01 C13
+//@   requires WFG(g)
+//@   modifies nothing
+//@   allocs elems(Player)
+//@   ensures len(res) == len(g.gs.Players)
+//@   ensures forall j :: 0 <= j && j < len(g.gs.Players) ==> res[DIST(g.dealer.idx, j, len(g.gs.Players))] == g.players[j]
+//@   ensures forall k :: 0 <= k && k < len(g.gs.Players) ==> res[k] == g.players[ROT(g.dealer.idx, k, len(g.gs.Players))]
+//@   loop 1 invariant 0 <= i && i <= len(g.gs.Players) && len(players) == i && 0 <= cur && cur < len(g.gs.Players)
+//@   loop 1 invariant (i < len(g.gs.Players) ==> DIST(g.dealer.idx, cur, len(g.gs.Players)) == i) && (i == len(g.gs.Players) ==> cur == g.dealer.idx)
+//@   loop 1 invariant forall j :: 0 <= j && j < len(g.gs.Players) && DIST(g.dealer.idx, j, len(g.gs.Players)) < i
+//@                      ==> players[DIST(g.dealer.idx, j, len(g.gs.Players))] == g.players[j]
+//@   loop 1 invariant forall k :: 0 <= k && k < i ==> players[k] == g.players[ROT(g.dealer.idx, k, len(g.gs.Players))]
+
+//@ func (*game).ResetAllPlayerAllowedActions(g) (err)
+//@   props C04 C05
+//@   requires WFG(g)
+//@   modifies PlayerState.Acted, PlayerState.AllowedActions
+//@   allocs elems(Player), elems(string)
+//@   ensures err == nil
+//@   ensures forall j :: 0 <= j && j < len(g.gs.Players) ==> !g.gs.Players[j].Acted && len(g.gs.Players[j].AllowedActions) == 0
+//@   loop 1 invariant forall j :: 0 <= j && j < len(g.gs.Players) && DIST(g.dealer.idx, j, len(g.gs.Players)) <= rangeindex
+//@                      ==> !g.gs.Players[j].Acted && len(g.gs.Players[j].AllowedActions) == 0
+
+//@ func (*game).GetAlivePlayerCount(g) (res)
+//@   props C05
+//@   requires WFG(g)
+//@   modifies nothing
+//@   ensures 0 <= res && res <= len(g.gs.Players)
+//@   loop 1 invariant 0 <= aliveCount && aliveCount <= len(g.gs.Players) && aliveCount >= len(g.gs.Players) - (rangeindex + 1)
+
+//@ func (*game).GetMovablePlayerCount(g) (res)
+//@   props C05
+//@   requires WFG(g)
+//@   modifies nothing
+//@   ensures 0 <= res && res <= len(g.gs.Players)
+//@   loop 1 invariant 0 <= mCount && mCount <= len(g.gs.Players) && mCount >= len(g.gs.Players) - (rangeindex + 1)
+
+// TURNOK: the current-player index is a seat or the "nobody" marker
+//@ pred TURNOK(g) = g.gs.Status.CurrentPlayer == 0 - 1 || (0 <= g.gs.Status.CurrentPlayer && g.gs.Status.CurrentPlayer < len(g.gs.Players))
+
+//@ func (*game).NextPlayer(g) (res)
+//@   props C04
+//@   requires WFG(g) && len(g.gs.Players) >= 2
+//@   requires 0 - 1 <= g.gs.Status.CurrentPlayer && g.gs.Status.CurrentPlayer < len(g.gs.Players)
+//@   modifies nothing
+//@   ensures res != nil && WFP(res) && res.game == g
+//@   ensures res.idx == ROT(g.gs.Status.CurrentPlayer, 1, len(g.gs.Players))
+
+//@ func (*game).SetCurrentPlayer(g, p) (err)
+//@   props C04 C11
+//@   requires WFG(g) && TURNOK(g) && STATUSOK(g)
+//@   requires p != nil ==> WFP(p) && p.game == g && CHIP(p.state)
+//@   modifies g.gs.Status.CurrentPlayer, PlayerState.AllowedActions
+//@   allocs elems(string)
+//@   ensures err == nil
+//@   ensures p == nil ==> g.gs.Status.CurrentPlayer == 0 - 1
+//@   ensures p != nil ==> g.gs.Status.CurrentPlayer == p.idx
+//@   ensures [C11] p != nil ==> OFFER(g, p.state, p.state.AllowedActions)
+//@   ensures old(g.gs.Status.CurrentPlayer) != 0 - 1 && (p == nil || g.gs.Players[old(g.gs.Status.CurrentPlayer)] != p.state)
+//@             ==> len(g.gs.Players[old(g.gs.Status.CurrentPlayer)].AllowedActions) == 0
+//@   ensures forall q *PlayerState :: (p == nil || q != p.state) && (old(g.gs.Status.CurrentPlayer) == 0 - 1 || q != g.gs.Players[old(g.gs.Status.CurrentPlayer)])
+//@             ==> q.AllowedActions == old(q.AllowedActions)
+
+// ---------------------------------------------------------------------------
+// pots and the event chain (stage 1: RoundStarted / RoundClosed)
+// ---------------------------------------------------------------------------
+
+//@ pred ALLCHIP(g) = forall i :: 0 <= i && i < len(g.gs.Players) ==> CHIP(g.gs.Players[i])
+
+// ENGINE: what every operation needs from the game object between operations
+//@ pred ENGINE(g) = WFG(g) && len(g.gs.Players) >= 2 && TURNOK(g) && STATUSOK(g) && ALLCHIP(g)
+
+//@ func (*game).updatePots(g) (err)
+//@   props C01 C16
+//@   requires WFG(g)
+//@   modifies g.gs.Status.Pots, @POTS
+//@   allocs
+//@   ensures err == nil
+//@   loop 1 invariant pot.WFLL(ll)
+
+//@ pred TABLE(g) = forall i :: 0 <= i && i < len(g.gs.Players) ==> g.gs.Players[i].Wager <= g.gs.Status.CurrentWager
+
+// OTHERSIDLE: nobody but the current seat is offered anything
+//@ pred OTHERSIDLE(g) = forall i :: 0 <= i && i < len(g.gs.Players) && i != g.gs.Status.CurrentPlayer ==> len(g.gs.Players[i].AllowedActions) == 0
+
+//@ pred TURN(g) = 0 <= g.gs.Status.CurrentPlayer && g.gs.Status.CurrentPlayer < len(g.gs.Players) && OTHERSIDLE(g)
+//@    && OFFER(g, g.gs.Players[g.gs.Status.CurrentPlayer], g.gs.Players[g.gs.Status.CurrentPlayer].AllowedActions)
+
+//@ pred ALLIDLE(g) = forall i :: 0 <= i && i < len(g.gs.Players) ==> len(g.gs.Players[i].AllowedActions) == 0
+
+// the state between two operations while a betting round is open / after it closed
+//@ pred ROUNDINV(g) = ENGINE(g) && TABLE(g) && TURN(g) && g.gs.Status.CurrentEvent == "RoundStarted"
+//@ pred CLOSEDINV(g) = ENGINE(g) && TABLE(g) && ALLIDLE(g) && g.gs.Status.CurrentEvent == "RoundClosed"
+
+//@ pred NOCHIPMOVE() = unchanged(PlayerState.Wager) && unchanged(PlayerState.StackSize) && unchanged(PlayerState.Pot)
+//@    && unchanged(PlayerState.InitialStackSize) && unchanged(PlayerState.Bankroll)
+//@    && unchanged(GameState.Status.CurrentRoundPot) && unchanged(GameState.Status.CurrentWager)
+
+//@ pred UNCH() = unchanged(GameState) && unchanged(PlayerState) && unchanged(Action) && unchanged(game) && unchanged(player)
+//@    && unchanged(elems(string))
+
+//@ func (*game).RequestPlayerAction(g) (err)
+//@   props C04 C05
+//@   requires ENGINE(g) && 0 <= g.gs.Status.CurrentPlayer && OTHERSIDLE(g) && g.gs.Status.CurrentEvent == "RoundStarted"
+//@   modifies g.gs.Status.CurrentEvent, g.gs.Status.CurrentPlayer, g.gs.Status.Pots, g.gs.UpdatedAt,
+//@            PlayerState.AllowedActions, PlayerState.Acted, @POTS
+//@   allocs elems(string), elems(Player)
+//@   ensures err == nil && TURNOK(g)
+//@   ensures g.gs.Status.CurrentEvent == "RoundStarted" || g.gs.Status.CurrentEvent == "RoundClosed"
+//@   ensures g.gs.Status.CurrentEvent != "RoundClosed" ==> TURN(g) && unchanged(PlayerState.Acted)
+//@             && g.gs.Status.CurrentPlayer == ROT(old(g.gs.Status.CurrentPlayer), 1, len(g.gs.Players))
+//@   ensures g.gs.Status.CurrentEvent == "RoundClosed" ==> ALLIDLE(g)
+
+//@ func (*game).EmitEvent(g, event) (err)
+//@   props C04 C05 C06
+//@   requires ENGINE(g)
+//@   requires event == GameEvent_RoundStarted || event == GameEvent_RoundClosed
+//@   case event == GameEvent_RoundStarted
+//@   case event == GameEvent_RoundClosed
+//@   requires event == GameEvent_RoundStarted ==> 0 <= g.gs.Status.CurrentPlayer && OTHERSIDLE(g)
+//@   modifies g.gs.Status.CurrentEvent, g.gs.Status.CurrentPlayer, g.gs.Status.Pots, g.gs.UpdatedAt,
+//@            PlayerState.AllowedActions, PlayerState.Acted, @POTS
+//@   allocs elems(string), elems(Player)
+//@   ensures err == nil && TURNOK(g)
+//@   ensures event == GameEvent_RoundStarted ==> g.gs.Status.CurrentEvent == "RoundStarted" || g.gs.Status.CurrentEvent == "RoundClosed"
+//@   ensures event == GameEvent_RoundClosed ==> g.gs.Status.CurrentEvent == "RoundClosed"
+//@   ensures g.gs.Status.CurrentEvent == "RoundStarted" ==> TURN(g) && unchanged(PlayerState.Acted)
+//@             && g.gs.Status.CurrentPlayer == ROT(old(g.gs.Status.CurrentPlayer), 1, len(g.gs.Players))
+//@   ensures g.gs.Status.CurrentEvent == "RoundClosed" ==> ALLIDLE(g)
+
+//@ func (*game).Resume(g) (err)
+//@   props C04 C05 C06
+//@   requires ENGINE(g) && 0 <= g.gs.Status.CurrentPlayer && OTHERSIDLE(g)
+//@   requires g.gs.Status.CurrentEvent == "RoundStarted"
+//@   modifies g.gs.Status.CurrentEvent, g.gs.Status.CurrentPlayer, g.gs.Status.Pots, g.gs.UpdatedAt,
+//@            PlayerState.AllowedActions, PlayerState.Acted, @POTS
+//@   allocs elems(string), elems(Player)
+//@   ensures err == nil && TURNOK(g)
+//@   ensures g.gs.Status.CurrentEvent == "RoundStarted" || g.gs.Status.CurrentEvent == "RoundClosed"
+//@   ensures g.gs.Status.CurrentEvent == "RoundStarted" ==> TURN(g) && unchanged(PlayerState.Acted)
+//@             && g.gs.Status.CurrentPlayer == ROT(old(g.gs.Status.CurrentPlayer), 1, len(g.gs.Players))
+//@   ensures g.gs.Status.CurrentEvent == "RoundClosed" ==> ALLIDLE(g)
+//@ func (*game).UpdateCombinationOfAllPlayers(g) (err)
+//@   trusted
+//@   props C10
+//@   requires WFG(g)
+//@   modifies CombinationInfo
+//@   allocs elems(string)
+//@   ensures err == nil
+
+// ---------------------------------------------------------------------------
+// player actions (player.go). p is ANY player object of the game: an action by a seat
+// that is not the one to act is refused because that seat is offered nothing (TURN).
+// ---------------------------------------------------------------------------
+
+//@ modset ACTION = p.state.Acted, p.state.DidAction, p.state.Fold, p.state.Wager, p.state.StackSize, p.state.VPIP,
+//@     PlayerState.Acted, PlayerState.AllowedActions, Action,
+//@     p.game.gs.Status.LastAction, p.game.gs.Status.PreviousRaiseSize, p.game.gs.Status.CurrentRoundPot,
+//@     p.game.gs.Status.MaxWager, p.game.gs.Status.CurrentWager, p.game.gs.Status.CurrentRaiser,
+//@     p.game.gs.Status.CurrentEvent, p.game.gs.Status.CurrentPlayer, p.game.gs.Status.Pots, p.game.gs.UpdatedAt, @POTS
+
+// what every accepted action leaves behind
+//@ pred AFTERACTION(g) = ENGINE(g) && TABLE(g)
+//@    && (g.gs.Status.CurrentEvent == "RoundStarted" || g.gs.Status.CurrentEvent == "RoundClosed")
+//@    && (g.gs.Status.CurrentEvent == "RoundStarted" ==> TURN(g))
+//@    && (g.gs.Status.CurrentEvent == "RoundClosed" ==> ALLIDLE(g))
+
+//@ func (*player).Pass(p) (err)
+//@   props C04 C11
+//@   requires WFP(p) && ROUNDINV(p.game)
+//@   modifies @ACTION
+//@   allocs Action, elems(string), elems(Player)
+//@   ensures [C04] !old(hasStr(p.state.AllowedActions, "pass")) ==> err != nil
+//@   ensures !old(hasStr(p.state.AllowedActions, "pass")) ==> UNCH()
+//@   ensures old(hasStr(p.state.AllowedActions, "pass")) ==> err == nil && AFTERACTION(p.game) && NOCHIPMOVE()
+//@             && p.game.gs.Status.PreviousRaiseSize == old(p.game.gs.Status.PreviousRaiseSize)
+
+//@ func (*player).Fold(p) (err)
+//@   props C04 C11
+//@   requires WFP(p) && ROUNDINV(p.game)
+//@   modifies @ACTION
+//@   allocs Action, elems(string), elems(Player)
+//@   ensures [C04] !old(hasStr(p.state.AllowedActions, "fold")) ==> err == ErrInvalidAction && UNCH()
+//@   ensures old(hasStr(p.state.AllowedActions, "fold")) ==> err == nil && AFTERACTION(p.game) && NOCHIPMOVE() && p.state.Fold
+//@             && p.game.gs.Status.PreviousRaiseSize == old(p.game.gs.Status.PreviousRaiseSize)
+
+//@ func (*player).Check(p) (err)
+//@   props C04 C11
+//@   requires WFP(p) && ROUNDINV(p.game)
+//@   modifies @ACTION
+//@   allocs Action, elems(string), elems(Player)
+//@   ensures [C04] !old(hasStr(p.state.AllowedActions, "check")) ==> err == ErrInvalidAction && UNCH()
+//@   ensures old(hasStr(p.state.AllowedActions, "check")) ==> err == nil && AFTERACTION(p.game) && NOCHIPMOVE()
+//@             && p.game.gs.Status.PreviousRaiseSize == old(p.game.gs.Status.PreviousRaiseSize)
+
+//@ func (*player).Call(p) (err)
+//@   props C04 C11 C12 C01
+//@   requires WFP(p) && ROUNDINV(p.game) && p.game.gs.Meta.Blind.BB >= 0
+//@   modifies @ACTION
+//@   allocs Action, elems(string), elems(Player)
+//@   ensures [C04] !old(hasStr(p.state.AllowedActions, "call")) ==> err == ErrInvalidAction && UNCH()
+//@   ensures old(hasStr(p.state.AllowedActions, "call")) ==> err == nil && AFTERACTION(p.game)
+//@   ensures [C11] old(hasStr(p.state.AllowedActions, "call")) ==> p.state.Wager == p.game.gs.Status.CurrentWager
+//@   ensures [C12] p.game.gs.Status.CurrentWager >= old(p.game.gs.Status.CurrentWager)
+//@             && p.game.gs.Status.PreviousRaiseSize == old(p.game.gs.Status.PreviousRaiseSize)
+
+//@ func (*player).Allin(p) (err)
+//@   props C04 C11 C12 C01
+//@   requires WFP(p) && ROUNDINV(p.game)
+//@   modifies @ACTION
+//@   allocs Action, elems(string), elems(Player)
+//@   ensures [C04] !old(hasStr(p.state.AllowedActions, "allin")) ==> err == ErrInvalidAction && UNCH()
+//@   ensures old(hasStr(p.state.AllowedActions, "allin")) ==> err == nil && AFTERACTION(p.game)
+//@   ensures [C11] old(hasStr(p.state.AllowedActions, "allin")) ==> p.state.Wager == old(p.state.InitialStackSize) && p.state.StackSize == 0
+//@   ensures [C12] p.game.gs.Status.CurrentWager >= old(p.game.gs.Status.CurrentWager)
+//@             && p.game.gs.Status.PreviousRaiseSize >= old(p.game.gs.Status.PreviousRaiseSize)
+
+//@ func (*player).Bet(p, chips) (err)
+//@   props C04 C11 C12 C01
+//@   requires WFP(p) && ROUNDINV(p.game)
+//@   modifies @ACTION
+//@   allocs Action, elems(string), elems(Player)
+//@   ensures [C04] !old(hasStr(p.state.AllowedActions, "bet")) ==> err == ErrInvalidAction && UNCH()
+//@   ensures [C12] old(hasStr(p.state.AllowedActions, "bet")) ==> err == nil && AFTERACTION(p.game)
+//@   ensures [C11] old(hasStr(p.state.AllowedActions, "bet")) && 0 < chips && chips < old(p.state.StackSize)
+//@             ==> p.game.gs.Status.CurrentWager == chips && p.state.Wager == chips
+//@   ensures [C12] p.game.gs.Status.CurrentWager >= old(p.game.gs.Status.CurrentWager)
+
+//@ func (*player).Raise(p, chipLevel) (err)
+//@   props C04 C12 C01
+//@   requires WFP(p) && ROUNDINV(p.game) && p.game.gs.Meta.Blind.BB >= 0
+//@   modifies @ACTION
+//@   allocs Action, elems(string), elems(Player)
+//@   ensures [C04] !old(hasStr(p.state.AllowedActions, "raise")) ==> err == ErrInvalidAction && UNCH()
+//@   ensures [C12] old(hasStr(p.state.AllowedActions, "raise")) && (chipLevel == 0 || chipLevel < old(p.game.gs.Status.CurrentWager))
+//@             ==> err == ErrIllegalRaise && UNCH()
+//@   ensures [C12] err == nil ==> AFTERACTION(p.game)
+//@   ensures [C12] err != nil ==> UNCH()
+//@   -- a full raise below the stack is carried out exactly (no-limit)
+//@   ensures [C12] old(hasStr(p.state.AllowedActions, "raise")) && p.game.gs.Meta.Limit != "pot"
+//@             && old(p.game.gs.Status.CurrentWager) < chipLevel && chipLevel < old(p.state.InitialStackSize)
+//@             && chipLevel - old(p.game.gs.Status.CurrentWager) >= old(p.game.gs.Status.PreviousRaiseSize)
+//@             ==> err == nil && p.game.gs.Status.CurrentWager == chipLevel && p.state.Wager == chipLevel
+//@                 && p.game.gs.Status.CurrentRaiser == p.idx
+//@                 && p.game.gs.Status.PreviousRaiseSize == chipLevel - old(p.game.gs.Status.CurrentWager)
+//@   -- an undersized request is never carried out as a raise: the player ends all-in (or it is refused)
+//@   ensures [C12] old(hasStr(p.state.AllowedActions, "raise")) && old(p.game.gs.Status.CurrentWager) < chipLevel
+//@             && chipLevel - old(p.game.gs.Status.CurrentWager) < old(p.game.gs.Status.PreviousRaiseSize)
+//@             ==> err != nil || p.state.StackSize == 0
+//@   ensures [C12] p.game.gs.Status.CurrentWager >= old(p.game.gs.Status.CurrentWager)
+//@             && p.game.gs.Status.PreviousRaiseSize >= old(p.game.gs.Status.PreviousRaiseSize)
+
+//@ func (*player).Pay(p, chips) (err)
+//@   props C04 C12
+//@   requires WFP(p) && ROUNDINV(p.game)
+//@   modifies @ACTION
+//@   allocs Action, elems(string), elems(Player)
+//@   ensures [C04] err == ErrInvalidAction && UNCH()
